@@ -119,7 +119,7 @@ def run(ctx):
     rep.check(r2, v is not None and all(req('get_acknowledgement')(peel(tcp.argv(b_, 1))) for b_ in ss), 'data:seq', 'sequence <- %s' % (short(v) if v else '%d sites' % len(ss)), tcp.loc(ss[0]) if ss else tcp.loc(dh))
     sf = arm_sites(dh, 'set_flags')
     consts = {b: const_val(tcp.arg(b, 1)) for b in sf}
-    rep.check(r2, sorted(consts.values()) == [ACK, ACK | PSH], 'data:flag-sites', 'set_flags constants on the data arm: %s' % sorted(hex(c) if c is not None else '?' for c in consts.values()), tcp.loc(dh))
+    rep.check(r2, sorted(consts.values(), key=lambda x: -1 if x is None else x) == [ACK, ACK | PSH], 'data:flag-sites', 'set_flags constants on the data arm: %s' % sorted(hex(c) if c is not None else '?' for c in consts.values()), tcp.loc(dh))
     # payload_repl discriminant edges
     def from_app(x):
         # the application layer's answer: the slot the get_tcb callback writes, or what get_tcb hands back from its callback
